@@ -42,6 +42,8 @@ EXPLANATION = (
     "symbolic-name table and single-character strings. No cutplace code is imported or executed."
     " Added in rounds 6 and 7: (O1.6, concrete) code_for_number_token on concrete spellings: decimal and 0x-hex"
     " limits are read, digit grouping with underscores (1_0) is refused."
+    " Added in round 10: (O1.3) the probe of a Decimal range has digits after the point of its own (0 or 3): a"
+    " value within the limits is accepted however many digits it has."
 )
 TRUSTED = ["token.EXACT_TOKEN_TYPES of the pinned interpreter as the oracle for 'is one token'"]
 ASSUMPTIONS = [
@@ -217,7 +219,11 @@ def _validate_sequence_table(ctx, qualname, class_qualname, decimal=False):
         if decimal:
             for probe in probes:
                 probe.is_decimal = True
-                probe.methods = {"is_nan": stub(lambda i, a, k: False), "is_finite": stub(lambda i, a, k: True)}
+                import decimal as _decimal
+
+                # as few digits after the point as a value can have: what this table decides is the independence of calls
+                probe.methods = {"is_nan": stub(lambda i, a, k: False), "is_finite": stub(lambda i, a, k: True),
+                                 "as_tuple": stub(lambda i, a, k: _decimal.DecimalTuple(0, (Opaque("digit"),), 0))}
         interp = Interp(model, ch, externals={"builtins.round": _round_hook})
         for (lower, upper) in items:
             interp.order.declare(("s", lower.key()), "<=", ("s", upper.key()))
@@ -258,6 +264,7 @@ def _validate_table(ctx, qualname, class_qualname, item_counts, decimal=False, i
                 items.append((lower, upper))
             items_value = list(items)
         probe = Sym("v")
+        probe_digits = []
         not_a_number = False
         probe_kind = "finite"
         pending_facts = []
@@ -284,7 +291,19 @@ def _validate_table(ctx, qualname, class_qualname, item_counts, decimal=False, i
             def is_infinite(interp_, args, kwargs):
                 return probe_kind == "Infinity"
 
-            probe.methods = {"is_nan": is_nan, "is_finite": is_finite, "is_infinite": is_infinite, "quantize": stub(lambda i, a, k: _rounded(probe)),
+            @stub
+            def as_tuple(interp_, args, kwargs):
+                # a value may have more digits after the point than any limit of the range (1.5 within 1...2)
+                import decimal as _decimal
+
+                if probe_kind != "finite":
+                    return _decimal.DecimalTuple(0, (), "n" if probe_kind == "NaN" else "F")
+                after = ch.choose("digits after the point of the probe", [0, 3])
+                probe_digits.append(after)
+                return _decimal.DecimalTuple(0, (Opaque("digit"),) * (1 + after), -after)
+
+            probe.methods = {"is_nan": is_nan, "is_finite": is_finite, "is_infinite": is_infinite, "as_tuple": as_tuple,
+                             "quantize": stub(lambda i, a, k: _rounded(probe)),
                              "__round__": stub(lambda i, a, k: _rounded(probe)), "normalize": stub(lambda i, a, k: probe)}
 
         def setup(interp):
@@ -311,7 +330,8 @@ def _validate_table(ctx, qualname, class_qualname, item_counts, decimal=False, i
         else:
             expected = "accept" if _membership_oracle(interp, items, probe) else "raise RangeValueError"
         facts = ", ".join("%s%s%s" % (a[1], rel, b[1]) for a, rel, b in interp.order.facts)
-        return ("items=%s%s order[%s]" % ("none" if items_value is None else "+".join(shapes), " probe=" + probe_kind if not_a_number else "", facts),
+        return ("items=%s%s%s order[%s]" % ("none" if items_value is None else "+".join(shapes), " probe=" + probe_kind if not_a_number else "",
+                                            " probe digits after the point=%d" % probe_digits[0] if probe_digits else "", facts),
                 actual, expected)
 
     decide(ctx, "O1.3", "membership", qualname, cell, min_cells=10)
@@ -734,7 +754,9 @@ def _decimal_methods(symbol):
     def as_tuple(interp, args, kwargs):
         # digits/exponent only feed precision and scale (C19 compares them, see DIGIT_SHAPES)
         before, after = _digit_shape(symbol)
-        return (0, (Opaque("digit"),) * (before + after), -after)
+        import decimal as _decimal
+
+        return _decimal.DecimalTuple(0, (Opaque("digit"),) * (before + after), -after)
 
     @stub
     def copy_negate(interp, args, kwargs):
